@@ -382,6 +382,11 @@ class Arr:
     def pow(self, o):
         return self ** o
 
+    def __rpow__(self, base):
+        if has_sym(self.a) or isinstance(base, Sym):
+            raise Inconclusive("symbolic exponent not modelled")
+        return self._new(_uf(lambda e: base ** int(e), 1)(self.a))
+
     def __iadd__(self, o):
         self._inplace(o, _add)
         return self
